@@ -420,9 +420,16 @@ def run_unit(unit, prop, tier, cfg, rundir, extra_defs=(), tag=""):
 def native_replay(prop, unit, failure, cfg, rundir):
     """compile the unit's native replay driver against the real sources (gcc,
     ASan+UBSan) and run it on the counterexample's inputs."""
-    rp = unit.get("replay")
-    if not rp:
+    rps = unit.get("replay")
+    if not rps:
         return None, "no native replay driver for this unit"
+    if isinstance(rps, dict):
+        rps = [rps]
+    # a replay entry may be restricted to the obligations it can reproduce ('only_for': substrings of the obligation text)
+    text = (failure.get("property") or "") + " " + (failure.get("description") or "")
+    rp = next((r for r in rps if not r.get("only_for") or any(k in text for k in r["only_for"])), None)
+    if rp is None:
+        return None, "the unit's native replay drivers cover other obligations, not this one"
     drv = os.path.join(VERIF, "replay", rp["driver"])
     exe = os.path.join(rundir, "replay_%s_%d" % (unit["id"].replace("/", "_"), os.getpid()))
     san = rp.get("sanitize", "address,undefined")
